@@ -7,7 +7,8 @@ lax_never_raises / warn_reports_each / strict_ok_implies_same for every token li
 semantics.  tools/emitters/c03_mode_sites.py regenerates Gen/ModeSites.lean (every consultation of the mode in
 liquid/, the WARNINGS table, the LiquidSyntaxError subclasses, the shape of the two `error` methods).
 
-Implementation side: every case runs under Mode.STRICT, Mode.WARN and Mode.LAX on the real code; token-level cases
+Implementation side: every case runs under Mode.STRICT, Mode.WARN and Mode.LAX on the real code (from_string, then
+render() and render_async() of the same template); token-level cases
 also run on the Lean driver and the observations (raised?, AST shape, output, warning categories, suppressed error
 classes) are diffed; the direct oracle is the property text.
 """
@@ -31,7 +32,13 @@ RULE = (
     "small block_nesting_limit) damaged at token level (dropped/duplicated/swapped tokens, orphan else/elsif/end*/when, "
     "unknown tags, missing or garbled expressions, strict-only expressions); stream modes: generated programs over all "
     "tags and ~90 filters with random data, half of them damaged by malform(), partials damaged too; stream sites: one "
-    "hand-aimed template per strict-only guard and per recovery path. Every case runs under STRICT, WARN and LAX. "
+    "hand-aimed template per strict-only guard and per recovery path. Every case runs under STRICT, WARN and LAX, and the "
+    "parsed template is rendered twice, with render() and with render_async(); both renders are held to the same oracle "
+    "(and, on the token streams, to the model). Besides comparing warn-mode warnings with the errors handed to "
+    "Environment.error, the oracle states two consequences that do not depend on that hook: when strict mode raises a "
+    "Liquid error (not from a strict-only raise guard, recognised from the traceback) warn mode must emit at least one "
+    "warning and its first warning must have the category of that error's class; and warn mode must have warned at "
+    "least once per IllegalNode in the parsed tree. "
     "Non-trivial: some mode suppressed or raised at least one Liquid error (the modes really differed), or strict "
     "succeeded with non-empty output."
 )
@@ -102,6 +109,34 @@ def _shape(nodes):
     return "".join(out)
 
 
+def count_illegal(nodes) -> int:
+    """IllegalNodes anywhere in a parse tree (generic walk over node attributes: works for every tag)."""
+    from liquid.ast import Node
+
+    n = 0
+    stack = list(nodes)
+    seen = set()
+    while stack:
+        x = stack.pop()
+        if id(x) in seen:
+            continue
+        seen.add(id(x))
+        if type(x).__name__ == "IllegalNode":
+            n += 1
+            continue
+        names = set(getattr(x, "__dict__", {}) or ())
+        for k in type(x).__mro__:
+            sl = getattr(k, "__slots__", ())
+            names.update([sl] if isinstance(sl, str) else sl)
+        for a in names:
+            v = getattr(x, a, None)
+            if isinstance(v, Node):
+                stack.append(v)
+            elif isinstance(v, (list, tuple)):
+                stack.extend(i for i in v if isinstance(i, Node))
+    return n
+
+
 def make_recording_env(mode, partials=None, attrs=None, extra=False, autoescape=False):
     """An Environment whose `error` also records (after the real method returned) the class of every suppressed error."""
     from liquid import DictLoader, Environment, Mode
@@ -118,42 +153,126 @@ def make_recording_env(mode, partials=None, attrs=None, extra=False, autoescape=
     return env, suppressed
 
 
+_GUARDS = None
+_LOOP = None
+
+
+def guard_ranges():
+    """{file: [(first line, last line)]} of every strict-only raise guard `if … .mode == Mode.STRICT …: raise …`
+    (no else) in the liquid package under test — the places where, by design, strict mode raises and the other modes
+    carry on silently."""
+    global _GUARDS
+    if _GUARDS is None:
+        import ast
+        from pathlib import Path
+
+        import liquid
+
+        res: dict = {}
+        for f in Path(liquid.__file__).parent.rglob("*.py"):
+            try:
+                tree = ast.parse(f.read_text())
+            except (SyntaxError, OSError):
+                continue
+            # the dispatch inside `Environment.error` / `RenderContext.error` has the same shape and is not a guard
+            dispatch = {id(x) for fn in ast.walk(tree) if isinstance(fn, (ast.FunctionDef, ast.AsyncFunctionDef)) and fn.name == "error" for x in ast.walk(fn)}
+            for n in ast.walk(tree):
+                if id(n) in dispatch:
+                    continue
+                if not (isinstance(n, ast.If) and not n.orelse and len(n.body) == 1 and isinstance(n.body[0], ast.Raise)):
+                    continue
+                conj = n.test.values if isinstance(n.test, ast.BoolOp) and isinstance(n.test.op, ast.And) else [n.test]
+                for c in conj:
+                    if (
+                        isinstance(c, ast.Compare) and len(c.ops) == 1 and isinstance(c.ops[0], ast.Eq)
+                        and isinstance(c.left, ast.Attribute) and c.left.attr == "mode"
+                        and isinstance(c.comparators[0], ast.Attribute) and c.comparators[0].attr == "STRICT"
+                        and isinstance(c.comparators[0].value, ast.Name) and c.comparators[0].value.id == "Mode"
+                    ):
+                        res.setdefault(str(f.resolve()), []).append((n.lineno, n.end_lineno))
+        _GUARDS = res
+    return _GUARDS
+
+
+def raised_by_guard(exc) -> bool:
+    """Was this exception (or the one it was raised from) raised inside a strict-only raise guard?"""
+    import os
+
+    g = guard_ranges()
+    seen = 0
+    while exc is not None and seen < 5:
+        tb = exc.__traceback__
+        while tb is not None:
+            fn = os.path.realpath(tb.tb_frame.f_code.co_filename)
+            for a, b in g.get(fn, ()):
+                if a <= tb.tb_lineno <= b:
+                    return True
+            tb = tb.tb_next
+        exc = exc.__cause__ or exc.__context__
+        seen += 1
+    return False
+
+
+def _run_async(coro_fn):
+    import asyncio
+
+    global _LOOP
+    if _LOOP is None or _LOOP.is_closed():
+        _LOOP = asyncio.new_event_loop()
+    return _LOOP.run_until_complete(coro_fn())
+
+
 def run_mode(source, mode, partials=None, attrs=None, extra=False, autoescape=False, data=None, shape=True):
-    """-> {"parse": …, "run": …} for one mode; see module docstring of the streams for the encoding."""
+    """-> {"parse": …, "run": …, "arun": …} for one mode: `from_string`, then `render` and `render_async` of the same
+    template. "run"/"arun" carry the warnings and suppressed errors of parsing plus that render."""
     import warnings
 
     from liquid.exceptions import LiquidError
 
     env, suppressed = make_recording_env(mode, partials, attrs, extra, autoescape)
+
+    def both(d):
+        return {"parse": d["parse"], "run": d["run"], "arun": d["run"]}
+
     with warnings.catch_warnings(record=True) as w:
         warnings.simplefilter("always")
 
-        def cats():
-            return [x.category.__name__ for x in w]
+        def cats(k=0):
+            return [x.category.__name__ for x in w[k:]]
 
         try:
             t = env.from_string(source)
         except RecursionError:
-            return {"parse": {"nonliquid": "RecursionError"}, "run": {"nonliquid": "RecursionError"}}
+            return both({"parse": {"nonliquid": "RecursionError"}, "run": {"nonliquid": "RecursionError"}})
         except LiquidError as e:
             cause = type(e.__cause__).__name__ if e.__cause__ is not None and not isinstance(e.__cause__, LiquidError) else None
             if cause:
-                return {"parse": {"nonliquid": cause}, "run": {"nonliquid": cause}}
-            return {"parse": {"err": type(e).__name__}, "run": {"parse_err": type(e).__name__}}
+                return both({"parse": {"nonliquid": cause}, "run": {"nonliquid": cause}})
+            r = {"parse_err": type(e).__name__}
+            if mode == "strict" and raised_by_guard(e):
+                r["guard"] = True
+            return both({"parse": {"err": type(e).__name__}, "run": r})
         except Exception as e:
-            return {"parse": {"nonliquid": type(e).__name__}, "run": {"nonliquid": type(e).__name__}}
-        parse = {"warnings": cats(), "suppressed": list(suppressed)}
+            return both({"parse": {"nonliquid": type(e).__name__}, "run": {"nonliquid": type(e).__name__}})
+        parse = {"warnings": cats(), "suppressed": list(suppressed), "illegal": count_illegal(t.nodes)}
         if shape:
             parse["shape"] = _shape(t.nodes)
-        try:
-            out = t.render(**(data or {}))
-        except RecursionError:
-            return {"parse": parse, "run": {"nonliquid": "RecursionError"}}
-        except LiquidError as e:
-            return {"parse": parse, "run": {"render_err": type(e).__name__, "warnings": cats(), "suppressed": list(suppressed)}}
-        except Exception as e:
-            return {"parse": parse, "run": {"nonliquid": type(e).__name__}}
-        return {"parse": parse, "run": {"ok": out, "warnings": cats(), "suppressed": list(suppressed)}}
+        res = {"parse": parse}
+        for key, go in (("run", lambda: t.render(**(data or {}))), ("arun", lambda: _run_async(lambda: t.render_async(**(data or {}))))):
+            nw, ns = len(w), len(suppressed)
+            try:
+                out = go()
+            except RecursionError:
+                res[key] = {"nonliquid": "RecursionError"}
+            except LiquidError as e:
+                res[key] = {"render_err": type(e).__name__, "warnings": parse["warnings"] + cats(nw), "suppressed": parse["suppressed"] + suppressed[ns:]}
+                if mode == "strict" and raised_by_guard(e):
+                    res[key]["guard"] = True
+            except Exception as e:
+                res[key] = {"nonliquid": type(e).__name__}
+            else:
+                res[key] = {"ok": out, "warnings": parse["warnings"] + cats(nw), "suppressed": parse["suppressed"] + suppressed[ns:]}
+        return res
 
 
 def lexer_accepts(source, attrs=None, extra=False):
@@ -192,6 +311,15 @@ def observe3(source, partials=None, attrs=None, extra=False, autoescape=False, d
 # the property, stated directly on an observation of the three modes
 # ------------------------------------------------------------------------------------------------
 def oracle3(obs):
+    """The property on the observation of the three modes; the sync render first, then the async render."""
+    for rk, pre in (("run", ""), ("arun", "async|")):
+        v = _oracle_run(obs, rk)
+        if v is not None:
+            return (pre + v[0], ("render_async: " if pre else "") + v[1])
+    return None
+
+
+def _oracle_run(obs, rk):
     s, w, l = obs["strict"], obs["warn"], obs["lax"]
     table = dict(obs["wt"])
     # 1. lax / warn never raise a Liquid error from parsing (lexer-accepted sources) or from rendering
@@ -199,10 +327,10 @@ def oracle3(obs):
         if "err" in o["parse"]:
             if obs["lexer_ok"]:
                 return (f"{name}|parse-raises|{o['parse']['err']}", f"{name} mode: from_string raised {o['parse']['err']} on a source the lexer accepts")
-        elif "render_err" in o["run"]:
-            return (f"{name}|render-raises|{o['run']['render_err']}", f"{name} mode: render raised {o['run']['render_err']}")
+        elif "render_err" in o[rk]:
+            return (f"{name}|render-raises|{o[rk]['render_err']}", f"{name} mode: render raised {o[rk]['render_err']}")
     # 2. lax is silent; warn reports each suppressed error, in order, under the category of its class
-    for part in ("parse", "run"):
+    for part in ("parse", rk):
         if l[part].get("warnings"):
             return ("lax|emits-warning", f"lax mode emitted {l[part]['warnings']}")
         if "warnings" in w[part]:
@@ -211,24 +339,39 @@ def oracle3(obs):
                 kind = "missing" if len(w[part]["warnings"]) < len(exp) else "extra" if len(w[part]["warnings"]) > len(exp) else "category"
                 return (f"warn|warnings-{kind}", f"warn mode suppressed {w[part]['suppressed']} but warned {w[part]['warnings']}")
     # 3. warn behaves the same as lax
-    if "ok" in w["run"] and "ok" in l["run"]:
-        if w["run"]["ok"] != l["run"]["ok"]:
+    if "ok" in w[rk] and "ok" in l[rk]:
+        if w[rk]["ok"] != l[rk]["ok"]:
             return ("warn-vs-lax|output-differs", "warn and lax render different output")
-        if w["run"]["suppressed"] != l["run"]["suppressed"]:
-            return ("warn-vs-lax|suppressed-differ", f"warn suppressed {w['run']['suppressed']}, lax {l['run']['suppressed']}")
-    elif ("ok" in w["run"]) != ("ok" in l["run"]) and "nonliquid" not in w["run"] and "nonliquid" not in l["run"]:
-        return ("warn-vs-lax|outcome-differs", f"warn {sorted(w['run'])} vs lax {sorted(l['run'])}")
+        if w[rk]["suppressed"] != l[rk]["suppressed"]:
+            return ("warn-vs-lax|suppressed-differ", f"warn suppressed {w[rk]['suppressed']}, lax {l[rk]['suppressed']}")
+    elif ("ok" in w[rk]) != ("ok" in l[rk]) and "nonliquid" not in w[rk] and "nonliquid" not in l[rk]:
+        return ("warn-vs-lax|outcome-differs", f"warn {sorted(w[rk])} vs lax {sorted(l[rk])}")
     # 4. a template that is fine in strict mode renders identically in lax and warn, without warnings
-    if "ok" in s["run"]:
+    if "ok" in s[rk]:
         for name, o in (("lax", l), ("warn", w)):
-            if "ok" not in o["run"]:
-                return (f"strict-ok|{name}-fails", f"strict renders, {name} gives {sorted(o['run'])}")
-            if o["run"]["ok"] != s["run"]["ok"]:
-                return (f"strict-ok|{name}-output-differs", f"strict output {s['run']['ok']!r:.80} vs {name} {o['run']['ok']!r:.80}")
-            if o["run"]["warnings"]:
-                return (f"strict-ok|{name}-emits-warning", f"{name} warned {o['run']['warnings']} for a template that is fine in strict mode")
-            if o["run"]["suppressed"]:
-                return (f"strict-ok|{name}-suppresses", f"{name} suppressed {o['run']['suppressed']} for a template that is fine in strict mode")
+            if "ok" not in o[rk]:
+                return (f"strict-ok|{name}-fails", f"strict renders, {name} gives {sorted(o[rk])}")
+            if o[rk]["ok"] != s[rk]["ok"]:
+                return (f"strict-ok|{name}-output-differs", f"strict output {s[rk]['ok']!r:.80} vs {name} {o[rk]['ok']!r:.80}")
+            if o[rk]["warnings"]:
+                return (f"strict-ok|{name}-emits-warning", f"{name} warned {o[rk]['warnings']} for a template that is fine in strict mode")
+            if o[rk]["suppressed"]:
+                return (f"strict-ok|{name}-suppresses", f"{name} suppressed {o[rk]['suppressed']} for a template that is fine in strict mode")
+    # 5. independent of the `error` hook: the error that strict mode raises is the first one warn mode meets, so warn
+    #    mode must report it — at least one warning, and the first one under the category of that error's class.
+    #    (Not claimed when the strict failure comes from a strict-only raise guard: those let the other modes go on
+    #    silently by design; the guard is recognised from the traceback, see raised_by_guard.)
+    err = s[rk].get("parse_err") or s[rk].get("render_err")
+    if err and not s[rk].get("guard") and "warnings" in w[rk]:
+        if not w[rk]["warnings"]:
+            return (f"warn|silent-for-strict-error|{err}", f"strict mode raises {err}; warn mode suppressed it without any warning")
+        if w[rk]["warnings"][0] != table.get(err, "LiquidWarning"):
+            return (f"warn|first-warning-category|{err}", f"strict mode raises {err}; the first warning of warn mode is {w[rk]['warnings'][0]}")
+    # 6. also independent of the hook: an IllegalNode in the tree is the visible trace of a suppressed parse error
+    #    (`Tag.get_node` and the elsif recovery of if/unless are the only places that create one), so warn mode must
+    #    have warned at least once per IllegalNode while parsing.
+    if "illegal" in w["parse"] and len(w["parse"]["warnings"]) < w["parse"]["illegal"]:
+        return ("warn|illegal-node-without-warning", f"warn mode parsed {w['parse']['illegal']} IllegalNode(s) but emitted {len(w['parse']['warnings'])} warning(s)")
     return None
 
 
@@ -247,6 +390,8 @@ def tags3(obs):
     t.append("suppressed:" + ("0" if n == 0 else "1" if n == 1 else "2-4" if n < 5 else "5+"))
     if not obs["lexer_ok"]:
         t.append("lexer-rejects")
+    if s["run"].get("guard") or s["arun"].get("guard"):
+        t.append("strict-only-guard")
     return t
 
 
@@ -543,7 +688,13 @@ class TokenStreamBase(Stream):
         ]
 
     def compare_view(self, case, obs):
-        return {m: obs[m] for m in MODES}
+        # the model must reproduce parse, the sync render and the async render (the `guard` mark is harness-side only)
+        return {m: {k: {a: b for a, b in obs[m][k].items() if a not in ("guard", "illegal")} for k in ("parse", "run", "arun")} for m in MODES}
+
+    def canon_model(self, case, mobs):
+        if isinstance(mobs, dict) and all(m in mobs for m in MODES):
+            return {m: {"parse": mobs[m]["parse"], "run": mobs[m]["run"], "arun": mobs[m]["run"]} for m in MODES}
+        return mobs
 
     def oracle(self, case, obs):
         return oracle3(obs)
@@ -602,6 +753,9 @@ class PoolStream(TokenStreamBase):
             for name in ("if", "unless"):
                 add([tok_c("a"), tok_t(name, x), tok_c("y"), tok_t("else"), tok_c("n"), tok_t("end" + name), tok_c("b")])
             add([tok_t("if", COND_POOL[2]), tok_c("y"), tok_t("elsif", x), tok_c("e"), tok_t("else"), tok_c("n"), tok_t("endif"), tok_c("b")])
+            for name in ("if", "unless"):
+                add([tok_c("a"), tok_t(name, COND_POOL[0]), tok_c("y"), tok_t("elsif", x), tok_c("e"), tok_t("end" + name), tok_c("b")])
+                add([tok_t(name, COND_POOL[2]), tok_t("elsif", COND_POOL[2]), tok_c("y"), tok_t("elsif", x), tok_t("end" + name)])
         for x in FOR_POOL:
             add([tok_c("a"), tok_t("for", x), tok_c("y"), tok_t("else"), tok_c("n"), tok_t("endfor"), tok_c("b")])
         for x in CAPTURE_POOL:
@@ -698,7 +852,7 @@ class ModesStream(Stream):
     def tags(self, case, obs):
         t = tags3(obs)
         for m in MODES:
-            if "nonliquid" in obs[m]["run"]:
+            if "nonliquid" in obs[m]["run"] or "nonliquid" in obs[m]["arun"]:
                 t.append(f"nonliquid-in-{m}")
         return t
 
@@ -730,6 +884,11 @@ SITE_TEMPLATES = [
     "{% if false %}a{% elsif 1 == %}b{% else %}c{% endif %}d",
     "{% if false %}a{% elsif %}b{% elsif true %}c{% endif %}d",
     "{% unless true %}a{% elsif 1 == %}b{% else %}c{% endunless %}d",
+    "{% unless true %}a{% elsif 1 == %}b{% endunless %}d",
+    "{% if false %}a{% elsif 1 == %}b{% endif %}d",
+    "{% unless false %}a{% elsif true %}b{% elsif %}c{% endunless %}d",
+    "a{% break %}b",
+    "{% if true %}{% continue %}{% endif %}b",
     "{% if true %}a{% else x %}b{% endif %}|{% if false %}a{% else %}b{% else %}c{% elsif true %}d{% endif %}e",
     "{% if true %}a{% else %}b",
     "{% if true %}a{% endfor %}b{% endif %}c",
